@@ -34,6 +34,29 @@ def method_candidates(prog, cls, name):
     return out
 
 
+_by_name = {}
+
+
+def methods_named(prog, name):
+    """every method of a package class with this name (receivers of unknown class); names that numpy arrays, lists,
+    strings or dicts also answer are not resolved this way"""
+    key = id(prog)
+    if key not in _by_name:
+        idx = {}
+        for f in prog.functions.values():
+            if f.cls is not None and f.parent is None and f.module.short != 'stdlib/collections':
+                idx.setdefault(f.name, []).append(f)
+        _by_name[key] = idx
+    if name in _FOREIGN:
+        return []
+    return _by_name[key].get(name, [])
+
+
+_FOREIGN = set(dir(list)) | set(dir(dict)) | set(dir(str)) | set(dir(tuple)) | {
+    'T', 'shape', 'dtype', 'flatten', 'diagonal', 'reshape', 'copy', 'ndim', 'size', 'astype', 'tolist', 'real', 'imag', 'conj',
+    'dot', 'sum', 'ravel', 'squeeze', 'trace', 'argmax', 'max', 'min', 'all', 'any', 'transpose', 'item', 'flat', 'fill', 'mean',
+    'round', 'view', 'subs', 'simplify', 'evalf', 'plot', 'add', 'set', 'get'}
+
 _local_alias_cache = {}
 
 
@@ -93,6 +116,9 @@ def callees(f, prog=None):
                         out.add(init)
             elif t.kind == 'local' and isinstance(n.func, ast.Name) and n.func.id in aliases:
                 out.update(aliases[n.func.id])
+            elif isinstance(n.func, ast.Attribute) and not (isinstance(n.func.value, ast.Name) and n.func.value.id in selfs):
+                # receiver of unknown class (a parameter, an element, a call result): class-hierarchy analysis by method name
+                out.update(methods_named(prog, n.func.attr))
         elif isinstance(n, ast.Attribute) and isinstance(n.ctx, ast.Load):
             if isinstance(n.value, ast.Name) and n.value.id in selfs and oc is not None:
                 for m in method_candidates(prog, oc, n.attr):
